@@ -182,6 +182,23 @@ theorem cancel_between_frames_counterexample :
       (.openCancel { hdrLen := 40000, bodyLen := 0, known := true } 1)).2 =
       [.headers 1 16384 true false, .rst 1] := by decide
 
+/-- an upload of 100 octets with 40000 octets of trailers, cancelled one octet into the second
+frame of the trailer block -/
+def exampleTrailerCut : List XOp :=
+  [.plain (.peer (.settings [])), .plain (.openReq { hdrLen := 50, bodyLen := 100, known := true, trailer := some 40000 }),
+   .feedCancel 1 0 16385]
+
+/-- the same for the request's trailer block: the code as it is writes DATA, the whole trailer
+block (END_STREAM, END_HEADERS on the last frame), then RST_STREAM; the alternative stops after
+the second frame -/
+theorem cancel_in_trailers_counterexample :
+    clientFrames (xstepE Variant.real (xrun Variant.real exampleCfg (exampleTrailerCut.take 2)).1 (.feedCancel 1 0 16385)).2 =
+      [.data 1 100 false, .headers 1 16384 true false, .continuation 1 16384 false, .continuation 1 7232 true, .rst 1] ∧
+    Monitor (xrun Variant.real exampleCfg exampleTrailerCut).2 = true ∧
+    clientFrames (xstepE { cancelBetweenFrames := true } (xrun Variant.real exampleCfg (exampleTrailerCut.take 2)).1 (.feedCancel 1 0 16385)).2 =
+      [.data 1 100 false, .headers 1 16384 true false, .continuation 1 16384 false, .rst 1] ∧
+    Monitor (xrun { cancelBetweenFrames := true } exampleCfg exampleTrailerCut).2 = false := by decide
+
 /-- `Body.Close` that drops its WINDOW_UPDATE when `cc.wmu` is taken (the alternative
 `closeTryLock`): the peer's window is 16384 octets below the client's books, for good; the code
 as it is: equal -/
